@@ -5,10 +5,15 @@ import (
 
 	"pgregory.net/rapid"
 
+	"github.com/formancehq/go-libs/v5/pkg/storage/bun/paginate"
+
 	"github.com/formancehq/ledger/verifharness/stats"
 )
 
 const histGen = "stateful histories (creates by postings incl. repeated accounts, self postings, zero/huge amounts, back-dated/tied/future timestamps, references; creates by generated Numscript on both runtimes; reverts force x atEffectiveDate; transaction/account metadata save/delete; dry runs; failing writes; clock advances; controller re-opens) applied to the real system controller + ledger controller chain + storage driver + ledger store over the pgsim stand-in and to the reference model"
+
+// postRun hooks let a property add end-of-history checks.
+var postRun = map[string]func(rt *rapid.T, w *World, l *LState){}
 
 func runFocused(t *testing.T, id, rule string, o HistOpts, quick, thorough int, nontrivial func(*HistorySummary) bool, assumptions ...string) {
 	st := stats.New(id, "exploration", rule, append([]string{assumePgsim}, assumptions...)...)
@@ -21,6 +26,9 @@ func runFocused(t *testing.T, id, rule string, o HistOpts, quick, thorough int, 
 	stats.Check(t, n, 0, func(rt *rapid.T) {
 		w, l, sum := RunHistory(rt, st, o)
 		defer w.Close()
+		if f := postRun[id]; f != nil {
+			f(rt, w, l)
+		}
 		st.Case(sum.Key, nontrivial(sum), sampleHistory(l), classesOf(sum)...)
 		st.Add("completed_checks", 1)
 	})
@@ -42,6 +50,27 @@ func TestC05(t *testing.T) {
 	runFocused(t, "C05", histGen+"; reads at generated instants (exactly on, 1us before/after, and far from recorded effective/insertion/revert dates) with optional start of window, both date modes and grouping: transactions, accounts (+volumes/effectiveVolumes), volumes, aggregated balances are compared with the fold of the model's moves in that window; non-trivial = >= 1 back-dated transaction, >= 1 revert and >= 1 PIT read; distinct = by operation history",
 		HistOpts{Features: FullFeatures, Steps: 25, Scripts: false, Reverts: true, Metadata: true, Reads: true, FinalReads: true, PITReads: true}, 150, 500,
 		func(s *HistorySummary) bool { return s.BackDated >= 1 && s.Reverts >= 1 && s.PITReads >= 1 })
+}
+
+func init() {
+	postRun["C08"] = func(rt *rapid.T, w *World, l *LState) {
+		logs := w.CheckLogs(l, 15, paginate.OrderAsc)
+		replayed, err := ReplayLogs(logs)
+		if err != nil {
+			w.V("C08", "the journal cannot be replayed: %v\nhistory:\n  %s", err, l.History())
+			return
+		}
+		if d := CompareModels(l.M, replayed); d != "" {
+			w.V("C08", "replaying the log payloads alone does not reproduce the ledger: %s\nhistory:\n  %s", d, l.History())
+		}
+		// and the live reads agree with the replayed model as well
+		keep := l.M
+		l.M = replayed
+		replayed.Logs = keep.Logs
+		w.CheckAccounts(l, nil, 15)
+		w.CheckVolumes(l, nil, nil, false, 0, 15)
+		l.M = keep
+	}
 }
 
 func TestC08(t *testing.T) {
